@@ -614,7 +614,8 @@ def _mechanism(case, log, path, mode, pre=()):
                 if path in e.get("appeared", []):
                     pick = (step, e)
     if pick is None:
-        return "unattributed", None
+        # never in the created-set and not removed by any operation: removed by the exit cleanup on its own
+        return ("at-exit:never-recorded" if mode == "deleted" else "unattributed"), None
     step, e = pick
     op = step["op"]
     fam = FAMILY.get(op, op)
@@ -1005,6 +1006,22 @@ def _directed_prefix_cases():
         add(("open-write", "out"), (op, "out", "out_dir2", q), (op, "out_dir2", "ou", q))
         add(("mkdir", "ou"), ("open-write", "ou/in"), (op, "ou", "out", q))
         add(("open-write", "pre_dir/app"), (op, "pre_dir/app", "pre_dir/app.log.2", q), (op, "pre_dir/app.log.1", "pre_dir/app.log.3", q))
+    # two created, prefix-related siblings in a directory that is NOT created by the execution; the shorter / the longer one is
+    # removed or renamed away, in both creation orders
+    pairs_f = [("f", "f10"), ("app", "app.log.2"), ("pre_dir/app", "pre_dir/app.log.2"), ("out_dir/ou", "out_dir/out.txt"), ("pre_dir/d/k", "pre_dir/d/k.1")]
+    pairs_d = [("ou", "out"), ("pre_di", "pre_dir2"), ("nd", "nd2"), ("pre_dir/da", "pre_dir/da2"), ("out_dir/s", "out_dir/s_2")]
+    for op in DELETES + ["rename", "replace", "move", "path-rename", "path-replace", "rename-kw", "move-kw"]:
+        q = sp_of(op)
+        two = op not in DELETES
+        isdir = op in ("rmdir", "path-rmdir", "rmtree")
+        for short, long_ in (pairs_d if isdir else pairs_f) + (pairs_d[:2] if two else []):
+            mk = "mkdir" if (short, long_) in pairs_d else "open-write"
+            away = os.path.join(os.path.dirname(short), "zz_moved")
+            for first, second in ((long_, short), (short, long_)):
+                for victim in (short, long_):
+                    add((mk, first), (mk, second), (op, victim, away if two else None, q))
+        if not isdir and not two:
+            add(("open-write", "f100"), ("open-write", "f10"), ("open-write", "f"), (op, "f10", None, q), (op, "f", None, q))
     # log rotation chains: x.1 -> x.2, x -> x.1, new x  (inside a created dir, inside a pre-existing dir, at top level)
     for ren in ("rename", "replace", "move", "path-rename", "path-replace"):
         q = sp_of(ren)
@@ -1013,6 +1030,10 @@ def _directed_prefix_cases():
         add(("open-write", "pre_dir/app.log.2"), (ren, "pre_dir/app.log.2", "pre_dir/app.log.3", q), (ren, "pre_dir/app.log.1", "pre_dir/app.log.2", q),
             (ren, "pre_dir/app.log", "pre_dir/app.log.1", q), ("open-write", "pre_dir/app.log.0"))
         add((ren, "app.log.1", "app.log.2", q), (ren, "app.log", "app.log.1", q), ("open-excl", "app.log.2"), (ren, "app.log.2", "app.log.3", q))
+        for base in ("pre_dir/new.log", "new.log", "out_dir/out"):
+            add(("open-write", base + ".1"), ("open-write", base), (ren, base + ".1", base + ".2", q), (ren, base, base + ".1", q), ("open-write", base))
+            add(("open-write", base), ("open-write", base + ".1"), ("open-write", base + ".2"), (ren, base + ".2", base + ".3", q),
+                (ren, base + ".1", base + ".2", q), (ren, base, base + ".1", q))
     # names that normalise to the same path, used together
     for a_sp, b_sp in (("str", "dot"), ("dot", "dotmid"), ("dslash", "str"), ("via-sibling", "str"), ("updown", "dslash"), ("path", "via-sibling"), ("bytes", "str")):
         add(("open-write", "f10", None, a_sp), ("remove", "f10", None, b_sp))
